@@ -38,7 +38,7 @@ TECHNIQUE = {
     "C12": "static analysis: bounded look-ahead (loop exit guards), which workspace code receives the pre-pass result, control dependence on cost offsets",
     "C15": "static analysis: may-panic site enumeration over the extended call graph with guard recognisers; output-after-success ordering; validator table; PDF overwrite guard",
     "C16": "static analysis: hash-order escape analysis (HashMap iteration to output), sort-key totality, symbolic string synthesis of formatters",
-    "C17": "static analysis: symbolic string synthesis of the amount formatters, rounding-mode constants, exact-quantity provenance, float-conversion reachability",
+    "C17": "static analysis: symbolic string synthesis of the amount formatters, rounding-mode constants, exact-quantity provenance, float-conversion reachability; the PDF template is read by a parser for its Typst subset (syntax tree, let-substitution, dimension typing of data fields — never evaluated)",
     "C18": "static analysis: match exhaustiveness, effect synthesis of the converter row loop (per row kind: rows pushed, counters, exits), symbolic strings within the grammar, taint to comment lines",
     "C19": "static analysis: region shape rules on the awards lookup (7-day look-back, map building, RSU arm provenance) over MIR",
     "C20": "static analysis: call-graph effect rules (no statics / file system / environment in tools), panic reachability, lookup predicates, audit table",
